@@ -294,6 +294,8 @@ class Body:
         self.mask = mask(text)
         self.loops = self._loops()
         self.ifs = self._ifs()
+        self.continues = [m.start() for m in re.finditer(r'(?<![A-Za-z0-9_])continue(?![A-Za-z0-9_])', self.mask)]
+        self.returns = [m.start() for m in re.finditer(r'(?<![A-Za-z0-9_])return(?![A-Za-z0-9_])', self.mask)]
 
     def _loops(self):
         m = self.mask
